@@ -456,7 +456,7 @@ def build_hsm(case, world, cls, extra_kwargs=None, model=None):
     def add_late():
         for e, t in held:
             machine.add_transition(**tdict(e, t))
-    machine._verif_add_late = add_late
+    world.add_late = add_late        # (kept on the recording world, not on the machine: machines must stay picklable)
     return machine, model
 
 
@@ -535,7 +535,7 @@ def impl_hsm(case):
     out = []
     for j, (k, e, a) in enumerate(case['history']):
         if case.get('late_event') is not None and j == case['late_event'][0]:
-            machine._verif_add_late()       # the machine is reconfigured after events have been processed
+            world.add_late()       # the machine is reconfigured after events have been processed
         tok = Token(a)
         world.items = []
         name = 'e%d' % e
